@@ -195,9 +195,21 @@ Definition mod_behaviour (k : nkind) (a b : Z) : lret :=
 Definition neg_behaviour (a : Z) : lret :=
   if a =? - 2 ^ 127 then (0, Some L4Neg) else (- a, None).
 
+(* Known defect of the library (v0.1.1, raw128.go div192by128, "edge case" branch): when the divisor does
+   not reduce to 64 bits after stripping its trailing zero bits and the low 64-bit word of the truncated
+   quotient |a*b| / |c| is 2^64 - 2, FMD may return a magnitude one (or, after rounding, two) units too
+   large. The hypothesis about FMD excludes exactly these inputs. 1.0 = 10^24 = 2^24 * 5^24 reduces to
+   64 bits, so multiplication (FMD(a, b, 1.0)) is never concerned. *)
+Definition safe_divisor (c : Z) : Prop :=
+  exists s, 0 <= s /\ (2 ^ s | c) /\ Z.abs c / 2 ^ s < 2 ^ 64.
+Definition fmd_edge (k : nkind) (a b c : Z) : Prop :=
+  (k = NFix128 \/ k = NUFix128) /\ ~ safe_divisor c /\
+  (Z.abs (a * b) / Z.abs c) mod 2 ^ 64 = 2 ^ 64 - 2.
+
 Definition lib_as_assumed (lib_fmd : nkind -> Z -> Z -> Z -> rmode -> lret)
     (lib_add lib_sub lib_mod : nkind -> Z -> Z -> lret) (lib_neg : Z -> lret) : Prop :=
   (forall k a b c m, is_fixed k = true -> n_in_range k a -> n_in_range k b -> n_in_range k c ->
+     ~ fmd_edge k a b c ->
      lib_fmd k a b c m = fmd_behaviour k a b c m) /\
   (forall k a b, (k = NFix128 \/ k = NUFix128) -> n_in_range k a -> n_in_range k b ->
      lib_add k a b = add_behaviour k a b /\ lib_sub k a b = sub_behaviour k a b /\
